@@ -25,7 +25,7 @@ RULE = ('(1) all non-empty subsets of present minutes for interval lengths 1..10
         '>= 1 non-append operation (2).')
 ASSUMPTIONS = ['an exception is acceptable for a candle / batch whose timestamps are older than the stored ones and unknown, as long '
                'as the store is left unchanged', 'bulk adds that overlap the stored tail are no longer than the stored series']
-MIN_OBS = {'fill_cases': 2000, 'fill_missing_minutes': 5000, 'store_ops': 3000, 'store_replacements': 300,
+MIN_OBS = {'fill_cases_with_candles_outside_or_repeated': 300, 'fill_cases_batch_as_long_as_interval_but_incomplete': 100, 'fill_cases': 2000, 'fill_missing_minutes': 5000, 'store_ops': 3000, 'store_replacements': 300,
            'store_bulk_overlaps': 100, 'spacing_cases': 6, 'route_sessions': 30, 'fast_route_sessions': 10,
            'series_observations': 3000, 'finer_data_route_observations': 200, 'stored_candles_compared': 5000}
 EXHAUSTIVE_NOTE = 'part (1): every non-empty subset of present minutes for every interval length 1..10 (2036 patterns) in both tiers'
@@ -38,10 +38,27 @@ def _mk(ts, rng):
             'close': c, 'high': max(o, c) + 0.5, 'low': min(o, c) - 0.5, 'volume': round(rng.uniform(1, 9), 3)}
 
 
-def _check_fill(present_idx, L, rng, fill, viol, cnt):
+def _check_fill(present_idx, L, rng, fill, viol, cnt, extra=None):
     start = gen.T0 + rng.randrange(0, 1000) * 60000
     end = start + (L - 1) * 60000
     batch = [_mk(start + i * 60000, rng) for i in sorted(present_idx)]
+    extras = []
+    if extra:
+        # what an exchange page may also contain: candles just outside the requested interval (a page that starts late runs
+        # past the end; one that starts early begins before it) and a minute delivered twice (overlapping pages). None of
+        # them changes what the interval must look like; `n_extra` of them make the batch as long as the interval again
+        n_extra = max(1, L - len(batch)) if extra.endswith('_fill') else 1
+        kind = extra.split('_')[0]
+        for j in range(n_extra):
+            if kind == 'after':
+                extras.append(_mk(end + (j + 1) * 60000, rng))
+            elif kind == 'before':
+                extras.append(_mk(start - (j + 1) * 60000, rng))
+            else:
+                extras.append(dict(batch[rng.randrange(len(batch))]))
+        cnt['fill_cases_with_candles_outside_or_repeated'] = cnt.get('fill_cases_with_candles_outside_or_repeated', 0) + 1
+        if len(batch) + len(extras) == L:
+            cnt['fill_cases_batch_as_long_as_interval_but_incomplete'] = cnt.get('fill_cases_batch_as_long_as_interval_but_incomplete', 0) + (1 if len(batch) < L else 0)
     # the batch is not always handed over oldest-first (an exchange may answer newest-first; merged pages are unordered)
     order = rng.choice(['ascending', 'ascending', 'descending', 'shuffled'])
     if order == 'descending':
@@ -50,6 +67,9 @@ def _check_fill(present_idx, L, rng, fill, viol, cnt):
         rng.shuffle(batch)
     if order != 'ascending' and len(batch) > 1:
         cnt['fill_cases_unordered_batch'] = cnt.get('fill_cases_unordered_batch', 0) + 1
+    # (extras never come first: the candle that opens the batch defines the price of a leading gap)
+    for x in extras:
+        batch.insert(rng.randint(1, len(batch)), x)
     snap = [dict(c) for c in batch]
     cnt['fill_cases'] = cnt.get('fill_cases', 0) + 1
     cnt['fill_missing_minutes'] = cnt.get('fill_missing_minutes', 0) + (L - len(batch))
@@ -64,7 +84,9 @@ def _check_fill(present_idx, L, rng, fill, viol, cnt):
     if len(out) != L:
         return bad('fill_wrong_length', f'{len(out)} candles for {L} minutes')
     prev_close = None
-    by_ts = {c['timestamp']: c for c in snap}
+    by_ts = {}
+    for c in snap:
+        by_ts.setdefault(c['timestamp'], c)
     for i, c in enumerate(out):
         ts = start + i * 60000
         if c['timestamp'] != ts:
@@ -94,6 +116,10 @@ def _part1(job):
                     _check_fill(sub, L, rng, fill, viol, cnt)
                     if k < L:
                         sigs.append(repr((L, sub)))
+                    if k < L and (k == L - 1 or rng.random() < 0.15):
+                        ex = rng.choice(['after_fill', 'before_fill', 'dup_fill', 'after', 'dup'])
+                        _check_fill(sub, L, rng, fill, viol, cnt, extra=ex)
+                        sigs.append(repr((L, sub, ex)))
     else:
         for _ in range(job['n']):
             L = rng.choice([11, 30, 60, 200, 600, 1500])
@@ -110,8 +136,9 @@ def _part1(job):
                 sub = [i for i in range(L) if not (a <= i <= b)] or [0]
             else:
                 sub = [rng.randrange(L)]
-            _check_fill(sub, L, rng, fill, viol, cnt)
-            sigs.append(repr((L, kind, len(sub))))
+            ex = rng.choice([None, None, 'after_fill', 'before_fill', 'dup_fill', 'after', 'before', 'dup']) if len(sub) < L else None
+            _check_fill(sub, L, rng, fill, viol, cnt, extra=ex)
+            sigs.append(repr((L, kind, len(sub), ex)))
     return {'viol': _dedup(viol), 'cnt': cnt, 'sigs': sigs,
             'sample': {'part': 1, 'mode': job['mode'], 'cases': cnt.get('fill_cases')}}
 
